@@ -56,6 +56,7 @@ class S2Accumulator:
         accept = np.ones(nconfig, dtype=bool)
 
         orig = configs.configs.copy()  # snapshot of all electron positions
+        orig_wrap = configs.wrap.copy() if hasattr(configs, "wrap") else None
 
         # Diagonal i=j contribution to <R|S_-S_+|ψ>/ψ(R) is N_down;
         # the swap sum carries a minus sign.
@@ -75,6 +76,12 @@ class S2Accumulator:
                 # state that matches the original configs.
                 self._move(wf, configs, j, r_j.copy(), accept)
                 self._move(wf, configs, i, r_i.copy(), accept)
+
+        # In periodic cells the unwinding moves re-wrap the positions, which can
+        # change them in the last bit; hand the walkers back exactly as received.
+        configs.configs[...] = orig
+        if orig_wrap is not None:
+            configs.wrap[...] = orig_wrap
 
         return {"S2": self.sz * (self.sz + 1) + s_minus_s_plus}
 
